@@ -115,13 +115,16 @@ Definition emit (p : problem) : tff_problem :=
      placeholder `n`, a symbolic constant or predicate named like a preamble identifier
      (general, c__infimum__, p__less__, ...), a renamed constant `p__s` meeting an existing
      predicate or constant `p__s`;
-   - a formula name that is not a lower_word after the `formula_<i>_` prefix was added. *)
+   - a formula name that is not a lower_word after the `formula_<i>_` prefix was added;
+   - a quantifier block that binds one variable twice (`forall X X F` is accepted by anthem's
+     parser and printed as `![X_g: general, X_g: general]: ..`). *)
 Fixpoint formula_vars_ok (f : formula) : bool :=
   match f with
   | FAtomic _ => true
   | FNot g => formula_vars_ok g
   | FBin _ l r => formula_vars_ok l && formula_vars_ok r
-  | FQ _ vs g => forallb (fun v => is_upper_word (vname v)) vs && formula_vars_ok g
+  | FQ _ vs g => forallb (fun v => is_upper_word (vname v)) vs
+                 && nodupb (map (fun v => (vname v ++ suffix (vsort v))%string) vs) && formula_vars_ok g
   end.
 Definition preamble_idents : list string := map (fun d => snd (fst d)) preamble_decls.
 Definition preamble_names : list string :=
